@@ -1,6 +1,7 @@
 package props
 
 import (
+	"bytes"
 	"crypto/x509/pkix"
 	"encoding/asn1"
 	"encoding/json"
@@ -11,6 +12,8 @@ import (
 
 	"github.com/wokdav/gopki/generator/cert"
 	"github.com/wokdav/gopki/generator/config"
+	"github.com/wokdav/gopki/generator/db"
+	"github.com/wokdav/gopki/generator/db/filesystem"
 	"pgregory.net/rapid"
 
 	"verif/harness/core"
@@ -228,6 +231,17 @@ func TestC08(t *testing.T) {
 	}
 	core.Register(r, "merge", wrap)
 	core.Register(r, "e2e", wrapWorld)
+	wrapSession := func(c c08Session) *core.Failure {
+		f, kind := checkC08Session(c)
+		key := ""
+		if kind == "session" {
+			key = "session " + fmt.Sprint(c.W.Texts())
+		}
+		r.Case(key, "session:"+kind)
+		r.Sample("session:"+kind, c.W.Texts())
+		return f
+	}
+	core.Register(r, "session", wrapSession)
 	if r.Replays() {
 		return
 	}
@@ -295,6 +309,7 @@ func TestC08(t *testing.T) {
 		enumerate([]string{"A", "B"}, 3, 4)
 		enumerate([]string{"A", "B", "C"}, 3, 3)
 	}
+	r.Extra["sessions"] = "2-4 certificates handed one after another to one open database (db.AddAndSign) under one shared profile whose entries they repeat word for word, repeat in another letter case, replace or leave out: each certificate carries the reference merge of ITS list with the profile, and the profile held by the database is unchanged after every step"
 	r.Extra["exhaustive_part"] = "config.Merge on synthetic extensions within the stated bounds; the end-to-end part is sampled"
 	// long synthetic lists (bookkeeping that is sized for "a few" extensions must not break beyond that)
 	core.Rapid(r, "merge", r.Pick(300, 20000), func(t *rapid.T) c08Case {
@@ -413,4 +428,158 @@ func TestC08(t *testing.T) {
 		return c
 	}
 	core.Rapid(r, "e2e", r.Pick(1200, 120000), gen, wrapWorld)
+	core.Rapid(r, "session", r.Pick(250, 20000), genC08Session, wrapSession)
+}
+
+// ---- sessions: several certificates handed to one open database, one after another, under one shared profile
+
+type c08Session struct {
+	W World // Ents[0]: the self-signed CA found in the directory; Ents[1:]: handed in through db.AddAndSign in this order
+}
+
+func checkC08Session(c c08Session) (*core.Failure, string) {
+	w := &c.W
+	first := World{Ents: w.Ents[:1], Profs: w.Profs}
+	d := first.Dir()
+	d.Tick(10)
+	dbase := filesystem.NewFilesystemDatabase(&core.MemFS{D: d})
+	if err := dbase.Open(); err != nil {
+		return nil, "setup-failed"
+	}
+	defer dbase.Close()
+	var pan any
+	var err error
+	func() {
+		defer func() { pan = recover() }()
+		var plan db.ChangeList
+		if plan, err = db.PlanBulkUpdate(dbase, db.UpdateStrategy(core.FlagDefault)); err == nil {
+			_, err = db.BulkUpdate(dbase, plan)
+		}
+	}()
+	if pan != nil {
+		return core.Failf("C08/panic", "gopki panicked: %v", pan), "panic"
+	}
+	if err != nil {
+		return nil, "setup-failed"
+	}
+	snapshot := func() string {
+		var parts []string
+		for _, p := range w.Profs {
+			cp, err := dbase.GetProfile(p.Name)
+			if err != nil || cp == nil {
+				parts = append(parts, p.Name+": <missing>")
+				continue
+			}
+			b, _ := json.Marshal(cp)
+			// extension entries are interfaces: include their concrete values
+			parts = append(parts, p.Name+": "+string(b)+fmt.Sprintf(" %+v", cp.Extensions))
+		}
+		return strings.Join(parts, "\n")
+	}
+	before := snapshot()
+	caDec, derr := readEntity(d, &w.Ents[0])
+	if derr != nil || caDec.Cert == nil {
+		return nil, "setup-failed"
+	}
+	for i := 1; i < len(w.Ents); i++ {
+		e := &w.Ents[i]
+		parsed, err := config.ParseConfig(bytes.NewReader(e.Render()))
+		if err != nil {
+			return nil, "setup-failed"
+		}
+		cc, ok := parsed.(*config.CertificateContent)
+		if !ok {
+			return nil, "setup-failed"
+		}
+		cc.Alias = e.EffAlias()
+		var callErr error
+		func() {
+			defer func() { pan = recover() }()
+			_, callErr = db.AddAndSign(dbase, *cc, true)
+		}()
+		if pan != nil {
+			return core.Failf("C08/panic", "db.AddAndSign panicked: %v", pan), "panic"
+		}
+		if callErr != nil {
+			return core.Failf("C08/session/refused", "certificate %d (%s) handed to an open database was refused: %v\n%v", i, e.EffAlias(), callErr, w.Texts()), "session"
+		}
+		dec, derr := readEntity(d, e)
+		if derr != nil || dec.Cert == nil {
+			return core.Failf("C08/session/no-certificate", "certificate %d (%s): %v", i, e.EffAlias(), derr), "session"
+		}
+		ctx := extCtx{SubjectBits: dec.Cert.SPKIBits, IssuerBits: caDec.Cert.SPKIBits}
+		if f := compareExtensions("C08/session", dec, effectiveExts(w, e), ctx, fmt.Sprintf("certificate %d of the session (%s)", i, e.EffAlias())); f != nil {
+			f.Msg += "\n" + fmt.Sprint(w.Texts())
+			return f, "session"
+		}
+		if after := snapshot(); after != before {
+			return core.Failf("C08/session/profile-changed", "after certificate %d (%s) was merged and built, the profile held by the database is no longer what it was:\nbefore: %s\nafter:  %s", i, e.EffAlias(), before, after), "session"
+		}
+	}
+	return nil, "session"
+}
+
+func genC08Session(t *rapid.T) c08Session {
+	var c c08Session
+	// the shared profile: content entries with spellings a normaliser might want to touch, plus whatever the generator adds
+	names := rapid.SampledFrom([][]string{{"WWW.Example.ORG", "Mail.Example.org"}, {"Host.EXAMPLE"}, {"a.example", "B.Example"}, {"lower.example"}}).Draw(t, "names")
+	var san []core.GN
+	for _, n := range names {
+		san = append(san, core.GN{Type: "dns", Name: n})
+	}
+	if rapid.Bool().Draw(t, "mail") {
+		san = append(san, core.GN{Type: "mail", Name: "Admin@Example.ORG"})
+	}
+	pSAN := core.Extension{Kind: core.KSAN, HasContent: true, SAN: san}
+	pEKU := core.Extension{Kind: core.KEKU, HasContent: true, EKU: []string{"serverAuth", "1.3.6.1.5.5.7.3.2"}}
+	pAIA := core.Extension{Kind: core.KAIA, HasContent: true, AIA: []string{"HTTP://OCSP.Example.org/Path"}}
+	prof := core.Profile{File: "profiles/shared.yaml", Name: "shared", Extensions: []core.Extension{pSAN}}
+	if rapid.Bool().Draw(t, "eku") {
+		prof.Extensions = append(prof.Extensions, pEKU)
+	}
+	if rapid.Bool().Draw(t, "aia") {
+		prof.Extensions = append([]core.Extension{pAIA}, prof.Extensions...)
+	}
+	c.W.Profs = []core.Profile{prof}
+	ca := core.Entity{File: "ca.yaml", Subject: []core.RDN{{Key: "CN", Value: "C08 session CA"}}}
+	if rapid.Bool().Draw(t, "ca-uses-profile") {
+		ca.Profile = "shared"
+	}
+	c.W.Ents = []core.Entity{ca}
+	lower := func(x core.Extension) core.Extension {
+		y := cloneExt(x)
+		for i := range y.SAN {
+			y.SAN[i].Name = strings.ToLower(y.SAN[i].Name)
+		}
+		for i := range y.AIA {
+			y.AIA[i] = strings.ToLower(y.AIA[i])
+		}
+		return y
+	}
+	n := rapid.IntRange(2, 4).Draw(t, "n")
+	for i := 1; i <= n; i++ {
+		e := core.Entity{File: fmt.Sprintf("leaf%d.yaml", i), Subject: []core.RDN{{Key: "CN", Value: fmt.Sprintf("C08 session leaf %d", i)}}, Issuer: "ca", Profile: "shared"}
+		for _, px := range prof.Extensions {
+			switch rapid.IntRange(0, 3).Draw(t, fmt.Sprintf("own%d-%s", i, px.Kind)) {
+			case 0: // nothing of this kind
+			case 1: // the profile's entry word for word
+				e.Extensions = append(e.Extensions, cloneExt(px))
+			case 2: // the same names in lower case: another value
+				if l := lower(px); !extEqual(l, px) {
+					e.Extensions = append(e.Extensions, l)
+				}
+			default: // something of its own
+				switch px.Kind {
+				case core.KSAN:
+					e.Extensions = append(e.Extensions, core.Extension{Kind: core.KSAN, HasContent: true, SAN: []core.GN{{Type: "dns", Name: fmt.Sprintf("Leaf%d.Example", i)}}})
+				case core.KEKU:
+					e.Extensions = append(e.Extensions, core.Extension{Kind: core.KEKU, HasContent: true, EKU: []string{"clientAuth"}})
+				default:
+					e.Extensions = append(e.Extensions, core.Extension{Kind: core.KAIA, HasContent: true, AIA: []string{"http://ocsp.leaf.example"}})
+				}
+			}
+		}
+		c.W.Ents = append(c.W.Ents, e)
+	}
+	return c
 }
